@@ -149,6 +149,13 @@ Definition center (v : vec) : vec := map (fun a => a - vmean v) v.
 Definition ncc_one (eps : K) (s t : vec) : K :=
   let x := center s in let y := center t in cc_score eps (dot x y) (dot x x) (dot y y).
 
+(* ncc_loss with a mask: weighted normalized cross correlation (weights w = mask broadcast to the image) *)
+Definition wmean (v w : vec) : K := vsum (vmul v w) / vsum w.
+Definition wcenter (v w : vec) : vec := map (fun a => a - wmean v w) v.
+Definition ncc_w (eps : K) (s t w : vec) : K :=
+  let x := wcenter s w in let y := wcenter t w in
+  cc_score eps (vsum (vmul (vmul x w) y)) (vsum (vmul (vmul x w) x)) (vsum (vmul (vmul y w) y)).
+
 (* windows: nb i = indices that contribute to the window sum at i *)
 Definition gather (nbi : list nat) (d : vec) : vec := map (fun j => nth j d 0) nbi.
 Definition idxs (d : vec) : list nat := seq 0 (length d).
@@ -253,13 +260,6 @@ Definition b_elementwise (f : K -> K -> K) (r : reduction) (x y : img) (shx : li
   | Some mo => Some (elementwise_loss fleb f r (flat3 x) (flat3 y) mo norm)
   end.
 
-(* ncc_loss without mask: one score per batch item.  (With a mask the code applies masked_loss to
-   the already reduced (N,) tensor, whose shape check fails for every documented mask shape; no
-   intended semantics can be read off the source, so that call is not modelled -- the check reports
-   it from the implementation side.) *)
-Definition b_ncc (r : reduction) (eps : K) (x y : img) : option vec :=
-  Some (reduce_loss r (map (fun p => ncc_one eps (concat (fst p)) (concat (snd p))) (combine x y)) None).
-
 Definition map2o {A B C : Type} (f : A -> B -> C) (a : list A) (b : list B) : list C :=
   map (fun p => f (fst p) (snd p)) (combine a b).
 
@@ -300,6 +300,21 @@ Definition b_wlcc (r : reduction) (sh ks : list nat) (eps : K) (x y : img)
     | _, _, _ => None
     end
   else None.
+
+(* ncc_loss: one score per batch item (all channels and points of the item flattened together); a mask of shape
+   (1|N, 1|C, X) is broadcast to the image and used as weight *)
+Definition b_ncc (r : reduction) (eps : K) (x y : img) (shx : list nat) (m : option (img * list nat)) : option vec :=
+  match m with
+  | None => Some (reduce_loss r (map2o (fun xn yn => ncc_one eps (concat xn) (concat yn)) x y) None)
+  | Some (mm, shm) =>
+      if list_eqb shm shx then
+        match expand_mask (length x) (nchan x) mm with
+        | Some e => Some (reduce_loss r (map (fun p => ncc_w eps (concat (fst (fst p))) (concat (snd (fst p))) (concat (snd p)))
+                                           (combine (combine x y) e)) None)
+        | None => None
+        end
+      else None
+  end.
 
 (* dice_score / tversky_index: one value per (n, c); weight (1|N, 1|C, X) *)
 Definition b_overlap (score : vec -> vec -> option vec -> K) (r : reduction) (x y : img)
